@@ -101,10 +101,22 @@ def build(repo, spec_dir, canary=False):
     b.emit('impl RegExpConfig {')
     b.verified_fn('config.rs', 'new', within=r'^impl RegExpConfig \{', props=['C07'], fname='RegExpConfig::new', clauses=[Clause('config.new_is_default', 'r == default_config()', ['C12', 'C10'])])
     b.emit('}')
+    # the closure that turns a line into a test case: the line as it is (nothing trimmed, nothing dropped)
+    k2 = ff.find('.lines()')
+    if k2 < 0: raise X.LostAnchor('builder.rs::from_file: file_content.lines()')
+    ce, _, _ = X.closure_expr(ff[k2:], '.map(|it| ')
+    b.emit('''pub uninterp spec fn trimmed(s: Seq<char>, mode: int) -> Seq<char>;       // str::trim / trim_start / trim_end (not the identity)
+pub assume_specification [str::trim] (s: &str) -> (r: &str) ensures r@ == trimmed(s@, 0);
+pub assume_specification [str::trim_start] (s: &str) -> (r: &str) ensures r@ == trimmed(s@, 1);
+pub assume_specification [str::trim_end] (s: &str) -> (r: &str) ensures r@ == trimmed(s@, 2);
+#[verifier::external_body] pub fn vx_str_to_string(s: &str) -> (r: String) ensures r@ == s@ { unimplemented!() }''')
+    b.slice_fn('from_file_line', 'pub fn from_file_line(it: &str) -> (r: String)', '    ' + ce, 'builder.rs::RegExpBuilder::from_file closure |it| of `.lines().map(..)`', props=['C07', 'C12'],
+               extra_rules=[('R4', r'\b(it(?:\.\w+\(\))*)\.to_string\(\)', r'vx_str_to_string(\1)', '&str -> String copy')],
+               clauses=[Clause('from_file.line_is_kept_as_it_is', 'r@ == it@', ['C12'])])
     def ff_rules(t, log, w):
-        t2 = re.sub(r'file_content\s*\.lines\(\)\s*\.map\(\|it\| it\.to_string\(\)\)\s*\.collect_vec\(\)', 'file_lines', t)
-        if t2 == t: raise X.LostAnchor('builder.rs::from_file: file_content.lines().map(|it| it.to_string()).collect_vec()')
-        log.add('R30', w, 'file_content.lines().map(|it| it.to_string()).collect_vec()', 'file_lines: the lines of the file, an arbitrary Vec<String> (parameter of the slice)')
+        t2 = re.sub(r'file_content\s*\.lines\(\)\s*\.map\(\|it\| [^\n]*?\)\s*\.collect_vec\(\)', 'file_lines', t)
+        if t2 == t: raise X.LostAnchor('builder.rs::from_file: file_content.lines().map(|it| ..).collect_vec()')
+        log.add('R30', w, 'file_content.lines().map(|it| ..).collect_vec()', 'file_lines: the closure applied to every line of the file (closure body: slice from_file_line), an arbitrary Vec<String> here (parameter of the slice)')
         t3 = re.sub(r'\bSelf \{', 'RegExpBuilder {', t2)
         if t3 != t2: log.add('R7', w, 'Self { .. }', 'RegExpBuilder { .. } (the slice is a free function)')
         return t3
@@ -112,6 +124,23 @@ def build(repo, spec_dir, canary=False):
                extra_rules=[('R6b', r'vx_unreachable_panic\(\)', 'vx_documented_panic()', 'the documented panic: a diverging call')],
                clauses=[Clause('from_file.like_from_on_the_lines', 'r.test_cases@ == file_lines@ && r.config == default_config()', ['C12']),
                         Clause('from_file.no_test_cases_is_the_documented_panic', 'file_lines@.len() > 0', ['C12', 'C07'])])
+    # the documented panics carry their documented messages (C07): the constant named in each panic! is read from the source and compared, as a string, with the
+    # constant the documentation of that function speaks about
+    bsrc = b.src('builder.rs')
+    consts = {}
+    for c in ['MISSING_TEST_CASES_MESSAGE', 'MINIMUM_REPETITIONS_MESSAGE', 'MINIMUM_SUBSTRING_LENGTH_MESSAGE']:
+        mm = re.search(r'pub\(crate\) const ' + c + r': &str =\s*("(?:[^"\\]|\\.)*");', bsrc)
+        if not mm: raise X.LostAnchor('builder.rs::' + c)
+        consts[c] = mm.group(1)
+        b.emit("pub const %s: &'static str = %s;" % (c, mm.group(1)))
+    for fn_name, expected in [('from', 'MISSING_TEST_CASES_MESSAGE'), ('from_file', 'MISSING_TEST_CASES_MESSAGE'), ('with_minimum_repetitions', 'MINIMUM_REPETITIONS_MESSAGE'), ('with_minimum_substring_length', 'MINIMUM_SUBSTRING_LENGTH_MESSAGE')]:
+        ft, _, _ = X.fn(bsrc, fn_name, within=r'^impl RegExpBuilder \{')
+        named = re.findall(r'panic!\("\{\}", (\w+)\)', ft)
+        named = [n for n in named if n in consts]
+        if len(named) != 1: raise X.LostAnchor('builder.rs::%s: exactly one panic!("{}", <MESSAGE CONSTANT>) expected, found %s' % (fn_name, named))
+        b.log.add('R7', 'builder.rs::' + fn_name, 'panic!("{}", %s)' % named[0], 'lemma: that constant is the documented message %s' % expected)
+        b.lemma('builder.documented_panic_message@%s' % fn_name, ['C07', 'C12'] if fn_name == 'from_file' else ['C07'],
+                'pub proof fn lemma_panic_message_%s()\n    ensures %s@ == %s@\n{\n    reveal_strlit(%s); reveal_strlit(%s);\n}' % (fn_name, named[0], expected, consts[named[0]], consts[expected]))
     b.emit('} // verus!\nfn main() {}')
     b.trusted += ['panic! is modelled as a call with `requires false` (R6): proves the documented panic unreachable when the argument is positive']
     return b
